@@ -171,9 +171,53 @@ class _Desugar(ast.NodeTransformer):
                 setattr(node, fld, _counting_while(b))
         return node
 
+    def visit_FunctionDef(self, node):
+        # locals bound exactly once to np.flatnonzero(M) / np.nonzero(M)[0] / np.where(M)[0]: a loop over such a local is a loop over
+        # the positions where M holds
+        counts: Dict[str, int] = {}
+        exprs: Dict[str, ast.AST] = {}
+        for n in ast.walk(node):
+            tg = []
+            if isinstance(n, ast.Assign):
+                tg = [t for t in n.targets]
+            elif isinstance(n, (ast.AugAssign, ast.AnnAssign)):
+                tg = [n.target]
+            elif isinstance(n, (ast.For, ast.comprehension)):
+                tg = [n.target]
+            for t in tg:
+                for x in ast.walk(t):
+                    if isinstance(x, ast.Name):
+                        counts[x.id] = counts.get(x.id, 0) + 1
+            if isinstance(n, ast.Assign) and len(n.targets) == 1 and isinstance(n.targets[0], ast.Name):
+                exprs[n.targets[0].id] = n.value
+        saved = getattr(self, "_index_locals", {})
+        self._index_locals = {k: v for k, v in exprs.items() if counts.get(k) == 1 and self._positions_of(v) is not None}
+        try:
+            return self.generic_visit(node)
+        finally:
+            self._index_locals = saved
+
+    @staticmethod
+    def _positions_of(it):
+        """M when `it` spells the positions where the 1-d mask M holds"""
+        if isinstance(it, ast.Subscript) and isinstance(it.slice, ast.Constant) and it.slice.value == 0 and isinstance(it.value, ast.Call) \
+                and isinstance(it.value.func, ast.Attribute) and it.value.func.attr in ("nonzero", "where") \
+                and isinstance(it.value.func.value, ast.Name) and it.value.func.value.id in ("np", "numpy") and len(it.value.args) == 1 \
+                and not it.value.keywords:
+            return it.value.args[0]
+        if isinstance(it, ast.Call) and isinstance(it.func, ast.Attribute) and it.func.attr == "flatnonzero" \
+                and isinstance(it.func.value, ast.Name) and it.func.value.id in ("np", "numpy") and len(it.args) == 1 and not it.keywords:
+            return it.args[0]
+        return None
+
     def visit_For(self, node: ast.For):
         self.generic_visit(node)
         it = node.iter
+        if isinstance(it, ast.Name) and it.id in getattr(self, "_index_locals", {}):
+            import copy as _copy
+            it = ast.copy_location(_copy.deepcopy(self._index_locals[it.id]), it)
+            for sub in ast.walk(it):
+                ast.copy_location(sub, node.iter)
         # for i, x in enumerate(X): body  ->  for i in range(len(X)): x = X[i]; body      (X a sequence or array expression)
         if isinstance(it, ast.Call) and isinstance(it.func, ast.Name) and it.func.id == "enumerate" and len(it.args) == 1 and not it.keywords \
                 and isinstance(node.target, ast.Tuple) and len(node.target.elts) == 2 and all(isinstance(e, ast.Name) for e in node.target.elts) \
@@ -196,6 +240,14 @@ class _Desugar(ast.NodeTransformer):
             node.iter = new_iter
             node.body = [bind] + node.body
             return node
+        # np.nonzero(M)[0] and np.where(M)[0] are np.flatnonzero(M) for a 1-d mask
+        if isinstance(it, ast.Subscript) and isinstance(it.slice, ast.Constant) and it.slice.value == 0 and isinstance(it.value, ast.Call) \
+                and isinstance(it.value.func, ast.Attribute) and it.value.func.attr in ("nonzero", "where") \
+                and isinstance(it.value.func.value, ast.Name) and it.value.func.value.id in ("np", "numpy") and len(it.value.args) == 1 \
+                and not it.value.keywords:
+            it = ast.copy_location(ast.Call(func=ast.Attribute(value=ast.Name(id="np", ctx=ast.Load()), attr="flatnonzero", ctx=ast.Load()),
+                                            args=[it.value.args[0]], keywords=[]), it)
+            ast.fix_missing_locations(it)
         if isinstance(it, ast.Call) and isinstance(it.func, ast.Attribute) and it.func.attr == "flatnonzero" \
                 and isinstance(it.func.value, ast.Name) and it.func.value.id in ("np", "numpy") and len(it.args) == 1 \
                 and not it.keywords and isinstance(node.target, ast.Name) and not node.orelse:
